@@ -25,6 +25,8 @@ def cases(draw, tier, override=None):
     go = {"max_leaf": 6 if tier == "quick" else 10, "max_mid": 5 if tier == "quick" else 9,
           "p_csum": 25, "p_always": 15, "p_gate": 60, "p_stem": 35, "p_postgate": 25, "p_lossy": 50,
           "p_poststamp_gate": 20}
+    if not override:
+        go["p_stem_default"] = 50
     go.update(override or {})
     with_failures = not override and draw(st.integers(0, 99)) < 25
     if with_failures:
